@@ -381,11 +381,11 @@ NAME_FORMS = {
     "exported": ["Name", "Count", "Host", "Label", "Weight", "Owner"],
 }
 
-BASIC_TYPES = ["int", "string", "bool", "int64", "uint8", "float64", "int32", "uint"]
+BASIC_TYPES = ["int", "string", "bool", "int64", "uint8", "float64", "int32", "uint", "int", "string", "string"]
 
 DEF_VALUES = {
     "int": ["80", "7", "0", "1024", "-3"], "int64": ["9", "100"], "int32": ["5"], "uint": ["3"], "uint8": ["200", "1"],
-    "string": ['"abc"', '"x y"', '""', '"a,b"'], "bool": ["true", "false"], "float64": ["1.5", "2"],
+    "string": ['"abc"', '"x y"', '""', '"a,b"', '"dflt"', '"v1"'], "bool": ["true", "false"], "float64": ["1.5", "2"],
     "dur": ["5", "time.Second", "3 * time.Millisecond"],
 }
 
